@@ -42,7 +42,7 @@ class Consts:
                         if isinstance(sub, (ast.Assign, ast.AnnAssign)):
                             self._collect(sub, d)
             self._mod_assign[m.name] = d
-            for node in ast.walk(m.tree):
+            for node in (ci.node for infos in idx.classes.values() for ci in infos if ci.mod == m.name):
                 if isinstance(node, ast.ClassDef):
                     cd = {}
                     for st in node.body:
